@@ -371,7 +371,7 @@ for _p in ('C16', 'C06', 'C02'):
     PROPS[_p]['native'] = ['pw_n', 'blob_n']
 for _p in ('C14', 'C10', 'C01'):
     PROPS[_p]['native'] = ['pcw_n']
-for _p in ('C17', 'C09', 'C03', 'C05'):
+for _p in ('C17', 'C09', 'C03', 'C05', 'C07', 'C08'):
     PROPS[_p]['native'] = ['rd_n']
 
 FIX_COMMITS = ['4bb8197', '4c9a29a', '15147a8', '4e117ba', 'b93d656', 'a099e6e', 'e707a6b', '30d67e9', '4443841', '1d90b93', 'ec0e9b9', 'ed32bde']
